@@ -7,7 +7,10 @@
 // (points / +closed path / +area over the path / +relation over them). From
 // every state reachable by <= depth accepted additions of the alphabet
 // (checks/c13/hist/ops.go: moved and relocated points, open / closed / literal
-// / mixed paths, areas by path and by polygon, relations), deduplicated by the
+// / mixed paths, areas by path and by polygon, relations; AddTag / RemoveTag of
+// plain and searchable keys on a seed point and the seed path — as first op
+// for every world, inside the search on overlay-over-base worlds, where plain
+// edits are pending tag modifications of base features), deduplicated by the
 // private state, every op of the alphabet is attempted with AddFeature and
 // every MergedChange of the menu (each failing part alone and at the first,
 // middle and last position among valid parts: added features, added and
@@ -34,7 +37,7 @@ func main() {
 	ops := hist.Ops()
 	kit.Main(&kit.Check{
 		ID: "C13", Level: "model_checking",
-		Rule: "case = (world kind x seed) x (seed state | first accepted op); inside a case breadth-first search over accepted ops up to the depth, states deduplicated by private state; at every state every op of the alphabet (AddFeature) and every merged change of the menu (MergedChange.Apply) is attempted on a world rebuilt by replay. A case is non-trivial when its first op is accepted into a valid state; distinct = states processed. Oracle: error returned => observable dump and private state equal to those before the call.",
+		Rule: "case = (world kind x seed) x (seed state | first accepted op); inside a case breadth-first search over accepted ops up to the depth, states deduplicated by private state; at every state every op of the alphabet (AddFeature, AddTag, RemoveTag) and every merged change of the menu (MergedChange.Apply) is attempted on a world rebuilt by replay. A case is non-trivial when its first op is accepted into a valid state; distinct = states processed. Oracle: error returned => observable dump and private state equal to those before the call.",
 		Assumptions: []string{
 			"the state of a world is the history of accepted calls that built it (rebuilt by replay for every attempt that changed anything)",
 			"states are merged on the private state with Go maps and reference lists sorted and without the epoch counter; the AVL shape of index lists is not part of the key (C07)",
@@ -44,9 +47,9 @@ func main() {
 		WorkerEnv: []string{"GOMAXPROCS=2", "GOGC=200"},
 		Build: func(tier string) (kit.Space, string) {
 			combos := hist.Combos(tier)
-			opt := hist.Options{Depth: 2, Unchanged: true, MergedPairs: 1}
+			opt := hist.Options{Depth: 2, Unchanged: true, MergedPairs: 1, TagOps: true, FewTagSuccessors: true}
 			if tier == "thorough" {
-				opt = hist.Options{Depth: 3, Unchanged: true, MergedPairs: 3}
+				opt = hist.Options{Depth: 3, Unchanged: true, MergedPairs: 3, TagOps: true}
 			}
 			n := int64(len(combos)) * int64(1+len(ops))
 			return kit.FuncSpace{N: n, F: func(i int64) kit.Result {
@@ -75,7 +78,7 @@ func main() {
 							"alphabet": len(ops), "merged_changes": len(hist.MergedMenu(opt.MergedPairs))}
 					}
 					return r
-				}}, fmt.Sprintf("%d world kind x seed combinations (3 kinds, %d seeds); histories of <= %d accepted ops over an alphabet of %d AddFeature ops; at every state %d AddFeature attempts + %d MergedChange attempts",
+				}}, fmt.Sprintf("%d world kind x seed combinations (3 kinds, %d seeds); histories of <= %d accepted ops over an alphabet of %d ops (AddFeature + 6 AddTag/RemoveTag); at every state %d single-call attempts + %d MergedChange attempts",
 					len(combos), len(hist.Seeds()), opt.Depth, len(ops), len(ops), len(hist.MergedMenu(opt.MergedPairs)))
 		},
 	})
